@@ -687,6 +687,109 @@ Fixpoint trace (w : world) (ops : list op) : list (world * option err) :=
   | o :: r => let we := step w o in we :: trace (fst we) r
   end.
 
+(* ------------------------------------------------------------------ the rest of the public API
+   Operations that hand an EXISTING Parameter object to a second owner (add_param(p), map_param(p),
+   ParameterSet(params=...)) and the two-step protocol change_fixed_value / update_fixed_param_value_cache.
+   They are kept apart from `op`: the invariant WorldOk is proved for `op` histories and is REFUTED as soon
+   as one of these is used (known findings C04-shared-parameter, C04-change-fixed-value). *)
+Inductive xop :=
+| XBase (o : op)
+| XAddShared (n : nat) (front : bool) (r : sref) (k : Z)      (* sets[n].add_param(r.params[k], atfront) *)
+| XMapShared (r : sref) (k : Z) (models : option (list Z)) (al : aliases)   (* pmm.map_param(r.params[k], ...) *)
+| XNewFrom (r : sref)                                          (* sets.append(ParameterSet(params=list(r.params))) *)
+| XChangeFixed (r : sref) (k : Z) (v : Z)                      (* r.params[k].change_fixed_value(v) *)
+| XUpdateCache (r : sref).                                     (* r.update_fixed_param_value_cache() *)
+
+(* ParameterSet(params=seq): add_param at the back, one by one, of the given objects *)
+Fixpoint add_all (st : store) (s : pset) (locs : list nat) : res pset :=
+  match locs with
+  | [] => Ok s
+  | l :: r => do p <- rd st l; do s' <- add_param s l p false; add_all st s' r
+  end.
+
+(* Parameter.change_fixed_value(value) *)
+Definition change_fixed_value (p : param) (v : Z) : res param :=
+  if p_isfixed p then Ok (mkParam (p_name p) v true (p_valmin p) (p_valmax p) v) else Err ValueError.
+
+(* update_fixed_param_value_cache: `for (i, param) in enumerate(self.fixed_params): self._fixed_param_values[i] = param.value`
+   (the array is written in place, entry by entry) *)
+Fixpoint upd_cache (fxv : list Z) (i : Z) (ps : list param) : list Z * option err :=
+  match ps with
+  | [] => (fxv, None)
+  | p :: r => match py_set fxv i (p_value p) with
+              | Ok f' => upd_cache f' (i + 1) r
+              | Err e => (fxv, Some e)
+              end
+  end.
+
+Definition with_fxv (s : pset) (f : list Z) : pset :=
+  mkPset (ps_params s) (ps_mask s) (ps_fxn s) (ps_fln s) (ps_fxi s) (ps_fli s) f.
+
+Definition shared_obj (w : world) (r : sref) (k : Z) : res (nat * param) :=
+  do s <- get_set w r; do l <- py_get (ps_params s) k; do p <- rd (w_store w) l; Ok (l, p).
+
+Definition xstep (w : world) (o : xop) : world * option err :=
+  match o with
+  | XBase b => step w b
+  | XAddShared n front r k =>
+      match nth_error (w_sets w) n with
+      | None => (w, Some IndexError)
+      | Some s =>
+          match shared_obj w r k with
+          | Err e => (w, Some e)
+          | Ok (l, p) =>
+              match add_param s l p front with
+              | Err e => (w, Some e)
+              | Ok s' => (mkWorld (w_store w) (w_map w) (set_nth (w_sets w) n s'), None)
+              end
+          end
+      end
+  | XMapShared r k models al =>
+      match shared_obj w r k with
+      | Err e => (w, Some e)
+      | Ok (l, p) =>
+          match map_param (w_map w) l p models al with
+          | Err e => (w, Some e)
+          | Ok m' => (mkWorld (w_store w) m' (w_sets w), None)
+          end
+      end
+  | XNewFrom r =>
+      match get_set w r with
+      | Err e => (w, Some e)
+      | Ok s =>
+          match add_all (w_store w) empty_pset (ps_params s) with
+          | Err e => (w, Some e)
+          | Ok s' => (mkWorld (w_store w) (w_map w) (w_sets w ++ [s']), None)
+          end
+      end
+  | XChangeFixed r k v =>
+      match shared_obj w r k with
+      | Err e => (w, Some e)
+      | Ok (l, p) =>
+          match change_fixed_value p v with
+          | Err e => (w, Some e)
+          | Ok p' => (mkWorld (wr (w_store w) l p') (w_map w) (w_sets w), None)
+          end
+      end
+  | XUpdateCache r =>
+      match get_set w r with
+      | Err e => (w, Some e)
+      | Ok s =>
+          match fixed_params (w_store w) s with
+          | Err e => (w, Some e)
+          | Ok fps => let '(f, e) := upd_cache (ps_fxv s) 0 fps in (put_set w r (w_store w) (with_fxv s f), e)
+          end
+      end
+  end.
+
+Definition xrun (w : world) (ops : list xop) : world := fold_left (fun w o => fst (xstep w o)) ops w.
+
+Fixpoint xtrace (w : world) (ops : list xop) : list (world * option err) :=
+  match ops with
+  | [] => []
+  | o :: r => let we := xstep w o in we :: xtrace (fst we) r
+  end.
+
 (* ------------------------------------------------------------------ observation *)
 (* everything the harness reads from the real objects after a step, as plain
    tuples / lists *)
@@ -741,6 +844,15 @@ Definition obs_trace (src : list bool) (ops : list op) (probe : list Z) :=
    is a case of its own) *)
 Definition obs_last (src : list bool) (ops : list op) (probe : list Z) :=
   match rev (trace (init src) ops) with
+  | [] => (None, observe (init src) probe)
+  | we :: _ => (snd we, observe (fst we) probe)
+  end.
+
+Definition xobs_trace (src : list bool) (ops : list xop) (probe : list Z) :=
+  map (fun we : world * option err => (snd we, observe (fst we) probe)) (xtrace (init src) ops).
+
+Definition xobs_last (src : list bool) (ops : list xop) (probe : list Z) :=
+  match rev (xtrace (init src) ops) with
   | [] => (None, observe (init src) probe)
   | we :: _ => (snd we, observe (fst we) probe)
   end.
